@@ -232,7 +232,11 @@ class MediaRequestBase(RequestHandlerBase):
             pass
 
         if adp_set.content_type == 'video':
-            event_generators = EventFactory.create_event_generators(options)
+            try:
+                event_generators = EventFactory.create_event_generators(options)
+            except ValueError as err:
+                logging.warning('Invalid event parameters: %s', err)
+                return flask.make_response('Invalid CGI parameters', 400)
             if event_generators:
                 logging.debug('creating emsg boxes')
                 moof_idx = atom.index('moof')
